@@ -187,7 +187,9 @@ def compute_polymer_connection(
     )
     connected = jnp.zeros_like(matrix, dtype=bool)
     if connected_slice is None:
-        connected = connected.at[..., 0].set(True)
+        # the bottom layer of the design; a single-layer design was zero-padded above, so its only
+        # (and bottom) layer sits at index 1
+        connected = connected.at[..., 1 if padded else 0].set(True)
     else:
         connected = connected.at[connected_slice].set(True)
 
